@@ -506,6 +506,38 @@ def r11_custom_density_dimensions(idx, r):
                   "power, otherwise the built component is (1 + dL/L) too dense")
 
 
+def r12_skips_mixes_and_refused_maps(idx, r):
+    """(a) assemblies exempted from the cold-to-hot axial expansion are those that HAVE one of the listed flags (inexact match, as everywhere
+    else a flag list selects assemblies): an exact match silently expands `control test`.  (b) applyIsotopicsMix re-normalises every heavy-metal
+    nuclide of the material, also one that neither feed lists - the loop runs over the union of both feeds AND the material's own nuclides.
+    (c) when the lattice map of a grid cannot be drawn as text, the partially built map is discarded before the writer decides between map and
+    explicit contents."""
+    f = idx.method("armi.reactor.blueprints.Blueprints", "_prepConstruction")
+    hf = [c for c in ast.walk(f.node) if isinstance(c, ast.Call) and call_attr(c) == "hasFlags" and any(isinstance(g, ast.comprehension) and norm(g.iter) == "assemsToSkip" for x in ast.walk(f.node) if isinstance(x, (ast.GeneratorExp, ast.ListComp)) and c in list(ast.walk(x)) for g in x.generators)]
+    if not hf:
+        raise AnchorMissing("_prepConstruction: a.hasFlags(f) for f in assemsToSkip")
+    for c in hf:
+        ex = [k for k in c.keywords if k.arg in ("exact", "exactMatch")] + list(c.args[1:2])
+        r.require(not ex or all(norm(getattr(k, "value", k)) == "False" for k in ex), "axial-expansion-skip:flag-subset-match", f, node=c,
+                  msg=f"`{norm(c)}` exempts only assemblies whose flags are exactly a listed flag: `control test` or `secondary control` is expanded although `control` is listed, so its block heights differ from the blueprint")
+    g = idx.func("armi.utils.densityTools.applyIsotopicsMix")
+    loop = next((x for x in walk_local(g.node) if isinstance(x, ast.For) and "enrichedMassFracs" in norm(x.iter)), None)
+    if loop is None:
+        raise AnchorMissing("applyIsotopicsMix: loop over the nuclides to set")
+    it = norm(propagate(loop.iter, single_assign_env(g.node)))
+    r.require("fertileMassFracs" in it and ".massFrac" in it, "isotopics-mix:every-nuclide-of-the-material", g, node=loop,
+              msg=f"the blend is written for `{it[:90]}` only: a heavy-metal nuclide the material holds but neither feed lists (U235 of UZr blended from Pu and depleted U) keeps its old fraction and the composition sums to more than one")
+    h = idx.func("armi.reactor.blueprints.gridBlueprint.saveToStream")
+    trys = [x for x in walk_local(h.node) if isinstance(x, ast.Try) and any(isinstance(c, ast.Call) and call_attr(c) == "gridContentsToAscii" for c in ast.walk(ast.Module(body=x.body, type_ignores=[])))]
+    if len(trys) != 1:
+        raise AnchorMissing("saveToStream: try around aMap.gridContentsToAscii()")
+    mp = next((norm(c.func.value) for c in ast.walk(ast.Module(body=trys[0].body, type_ignores=[])) if isinstance(c, ast.Call) and call_attr(c) == "gridContentsToAscii"), "aMap")
+    for hd in trys[0].handlers:
+        okh = any(isinstance(st_, (ast.Raise, ast.Continue, ast.Return)) for st_ in hd.body) or any(isinstance(st_, ast.Assign) and norm(st_) == f"{mp} = None" for st_ in hd.body)
+        r.require(okh, "saveToStream:refused-map-discarded", h, node=hd,
+                  msg=f"the handler swallows the refusal but keeps `{mp}`: the partially drawn map is then written as the lattice map and the explicit grid contents are dropped - the file reads back to other contents")
+
+
 def run(idx, chk):
     chk.explanation = (
         "C18 is a relation between an input document and an object graph; static analysis claims only: (1) each lattice-map class reads and "
@@ -538,3 +570,5 @@ def run(idx, chk):
                  necessary="the composition after isotopic overrides is the one the blueprint text specifies")
     chk.run_rule("R18.11", "custom densities of solids are reduced by (1+dL/L)^2 for hot input heights and ^3 for cold ones", lambda r: r11_custom_density_dimensions(idx, r), floor=1,
                  necessary="the built component has the composition (mass) the blueprint text specifies")
+    chk.run_rule("R18.12", "expansion exemption by flag subset; isotopic blends cover every nuclide of the material; a refused map is discarded", lambda r: r12_skips_mixes_and_refused_maps(idx, r), floor=3,
+                 necessary="block heights and compositions are those of the blueprint text; indexed contents are drawn as text that reads back to them or not at all")
